@@ -386,6 +386,8 @@ def core_specs(P: str = "U", variant: int = 0) -> list[CS]:
             body="    def __len__(self):\n        return len(self.elems)\n\n    def __iter__(self):\n        return iter(self.elems)\n\n    def __contains__(self, x):\n        return any(x is e for e in self.elems)\n",
         ),
         CS(f"{P}Hold", (E,), F(FS("blk", "child", f"{P}Coll", "one", (f"{P}Coll",)), FS("alt", "child", f"{P}Coll | None", "opt", (f"{P}Coll",), default="None"))),
+        # defaults that are not interpreter-wide singletons (a big int, a longer string, a non-empty tuple, a Path)
+        CS(f"{P}Defaults", (E,), F(FS("big", "prop", "int", "int", default="4096"), FS("name", "prop", "str", "str", default='"function-local"'), FS("dims", "prop", "tuple[int, ...]", "tint", default="(4, 4)"), FS("where", "prop", "Path", "path", default='Path("a/b")'))),
         # a class that re-declares the built-in origin field with another annotation
         CS(f"{P}Narrow", (E,), F(FS("origin", "prop", "Union[CodeOrigin, Origin]", "origin", kw_only=True, default="NO_ORIGIN"), FS("v", "prop", "int", "int", default="0"), FS("kid", "child", f"{E} | None", "opt", (E,), default="None"))),
         # two classes whose (long) names share their first 16 characters and whose layout is the same
